@@ -309,6 +309,66 @@ def _keys(ctx) -> None:
                                                                                  for x in subterms(t))) >= 3]
     ctx.ob("c.key-forms", f, "final-else", bool(raises), "unsupported key types raise SerifTypeError", raises[0].node if raises else f.node,
            message="an unsupported key type does not raise SerifTypeError (the assignment would silently do nothing)")
+    # the untyped empty vector (schema() is None) is a key too: v[Vector([])] selects nothing, so v[Vector([])] = x assigns nothing -
+    # it must not reach the final raise (sibling agreement with __getitem__, which has this branch)
+    def val(t):
+        """abstract value of a key-derived term for key = Vector([]): 'V0' (that vector), 'T0' (the empty tuple), None (unknown)"""
+        if t == keyp or (t[0] == "call" and t[1][0] == "attr" and t[1][2] == "_check_duplicate" and t[2] == (keyp,)):
+            return "V0"
+        if t == ("tuple", ()):
+            return "T0"
+        if t[0] == "ifexp":
+            c = truth(t[1])
+            return val(t[2]) if c is True else (val(t[3]) if c is False else None)
+        return None
+
+    def truth(t):
+        """truth of a path condition for key = Vector([]) (a Vector, no schema, length 0); None = not determined"""
+        k = t[0]
+        if k == "bool":
+            vs = [truth(x) for x in t[2]]
+            if t[1] == "and":
+                return False if any(v is False for v in vs) else (True if all(v is True for v in vs) else None)
+            return True if any(v is True for v in vs) else (False if all(v is False for v in vs) else None)
+        if k == "un" and t[1] == "Not":
+            v = truth(t[2])
+            return None if v is None else (not v)
+        if k == "call" and t[1] == ("name", "isinstance") and len(t[2]) == 2:
+            v = val(t[2][0])
+            c = t[2][1]
+            names = {n_[1] for n_ in ([c] if c[0] == "name" else list(c[1]) if c[0] == "tuple" else []) if n_[0] == "name"}
+            return None if v is None else (("Vector" in names) if v == "V0" else ("tuple" in names))
+        if k == "call" and t[1] in (("name", "all"), ("name", "any")) and len(t[2]) == 1 and t[2][0][0] == "obj":
+            evs = [e for e in it.events if e.kind == "elem" and e.term == t[2][0]]
+            srcs = {val(it.loops[L].iter) for e in evs for L in e.loops if it.loops[L].iter is not None} - {None}
+            if srcs:
+                return t[1][1] == "all"
+            return None
+        if k == "cmp" and t[1] in ("Is", "IsNot") and t[3] == ("const", "NoneType", None) and t[2][0] == "call" and t[2][1][0] == "attr" \
+                and t[2][1][2] == "schema" and val(t[2][1][1]) == "V0":
+            return t[1] == "Is"
+        if k == "cmp" and t[1] in ("Eq", "NotEq") and ("const", "int", 0) in (t[2], t[3]) and any(
+                x[0] == "call" and x[1] == ("name", "len") and len(x[2]) == 1 and val(x[2][0]) is not None for x in (t[2], t[3])):
+            return t[1] == "Eq"
+        return None
+    reach = [r_ for r_ in raises if all((truth(t) if pol else (None if truth(t) is None else not truth(t))) is not False
+                                        for t, pol in r_.conds)]
+    tested, reaches = True, bool(reach)
+    ctx.ob("c.key-forms", f, "untyped-empty-key", tested and not reaches, "an untyped empty vector key addresses nothing (no raise)", f.node,
+           message="Vector.__setitem__ has no branch for a key vector without a schema (Vector([])): v[Vector([])] = x raises SerifTypeError "
+                   "although v[Vector([])] reads as the empty selection")
+    # a Row is a read-only view: its item assignment refuses before anything changes (Vector.__setitem__ would promote the dtype and
+    # then fail on the read-only storage)
+    rs = prog.cls("Row").methods.get("__setitem__") if prog.cls("Row") is not None else None
+    okr = False
+    if rs is not None:
+        from ..symx import Interp as _RI
+        ri = _RI(prog, rs)
+        okr = not ri.falls_through and not [e for e in ri.events if e.kind in ("store", "return")] \
+            and any(e.kind == "raise" for e in ri.events)
+    ctx.ob("c.key-forms", f, "row-read-only", okr, "Row.__setitem__ only raises", (rs.node if rs is not None else f.node),
+           message="Row does not define an item assignment that only refuses: row[0] = None runs Vector.__setitem__, which makes the dtype "
+                   "nullable and then fails with AttributeError on the Row's read-only storage - a failed assignment that changed the Row")
     n_idx = 0
     for e in recs:
         pos = e.term[2][0][1][0]
@@ -561,6 +621,11 @@ def _table(ctx) -> None:
 
 _V, _T = "vector", "table"
 MUTANTS = [
+    dict(id="setitem-no-untyped-empty-key", module="vector",
+         old="		if isinstance(key, Vector) and key.schema() is None and len(key) == 0:\n			key = ()\n", new="", rules=["c.key-forms"],
+         desc="reverts fix a9219f6"),
+    dict(id="row-setitem-inherited", module="table", old="	def __setitem__(self, key, value):\n		# A Row is a read-only snapshot",
+         new="	def _unused_setitem(self, key, value):\n		# A Row is a read-only snapshot", rules=["c.key-forms"], desc="reverts fix 63aaa1a"),
     dict(id="table-setitem-no-rehearsal", module="table",
          old="		if len(target_indices) > 1:\n			with warnings.catch_warnings():\n				warnings.simplefilter(\"ignore\")\n				scratch = Table([self._underlying[col_idx].copy() for col_idx in target_indices])\n				scratch._write_columns(list(range(len(target_indices))), row_spec, value)\n",
          new="", rules=["f.table-delegation"], desc="reverts fix 07c3d22: t[0, :] = [10, 'x'] leaves the first column written"),
